@@ -97,6 +97,28 @@ T = {
             "overflow at extreme magnitudes is not decided"),
 }
 
+# rules that protect a value the property is computed from are shared between the checks that depend on it (DESIGN.md section 8, round 4)
+SHARED = {
+    "C01": "; the wrappers never write into callback results, the evaluator is memoryless, create_slacks decided by row semantics",
+    "C02": "; the wrappers never write into the callback results the status tests are computed from",
+    "C04": "; create_slacks decided by its row semantics (abstract interpretation over row types); memoryless evaluator",
+    "C05": "; the problem's variable bounds are private copies made at construction",
+    "C06": "; definite assignment, no container changed while iterated over, per-solve construction of the stateful policy objects",
+    "C07": "; no wrapper below the validating evaluator drops entries by a test that is false for NaN",
+    "C10": "; helper objects kept by long-lived objects are immutable too; process-wide numeric settings restored on every exit",
+    "C11": "; an iterate's point and a problem's bounds are copies on every path",
+    "C12": "; an iterate's point is its own copy (nothing outside can move it between announcements)",
+    "C13": "; memoryless evaluator, an iterate's point is its own copy",
+    "C14": "; the shared formulas are functions of their arguments (no memo / work buffer in Iterate, StepFunc, ActiveSet)",
+    "C15": "; failures reach the failure path (containment shared with C07)",
+    "C16": "; each policy's stored rho starts at params.rho in every solve",
+    "C17": "; helper code reachable from the solvers cannot die of a container changed while iterated over",
+    "C19": "; memoryless evaluator and callback results never written (repeated evaluation sees the user's values)",
+    "C20": "; weights kept in a wide integer type, no module-level cache in scale.py, callback results never written",
+}
+for _k, _add in SHARED.items():
+    T[_k] = (T[_k][0] + _add,) + tuple(T[_k][1:])
+
 NA = [
     {"property_id": "C03", "reason": "convergence of the method on a problem class within an iteration budget is a property of the numerical "
      "trajectory (controller gains, penalty growth, conditioning); no dataflow / typestate / effect argument bounds it and a structural proxy "
